@@ -22,6 +22,9 @@ CHECKS = {
     "C12": ("exploration", "runtime monitoring: metamorphic/differential oracle over the real normalize_expression_sig_v1 (signature buckets vs exact evaluation, operand permutations, single-point mutants)",
             "Every expression up to the tier's size bound (exhaustive over the stated alphabet, plus seeded larger samples) is passed to the real signature function; expressions sharing a signature are evaluated against each other in exact arithmetic (Fractions; polynomial fragment decided by normal form), every +/* operand permutation and re-association must keep the signature, every semantically different single-point mutant must change it, and the signature exposed in real sweep-class metadata / inspection payload must equal the direct one. Held = no counterexample among the expressions observed.",
             "Exhaustive only up to the stated size and alphabet; equality outside the polynomial fragment rests on 8 exact assignments. Non-numeric constants are not generated (outside the property's numeric scope).", "DESIGN.md §4 C12"),
+    "C07": ("exploration", "runtime monitoring: SER fields vs an independent account of the same run (same-run sys.monitoring node probe, reference model, harness clock) under 4 host time zones",
+            "Generated succeeding and failing pipelines run traced at rotating detail levels under TZ in {UTC,+09:00,-08:00,+05:45}; a same-run sys.monitoring probe records context/data at every node entry/exit and the class that ran. Each SER is compared field by field: created/updated keys vs the real context diff, processor.ref vs the class that ran, every resolved parameter's value and channel, the four built-in checks vs the observed condition, digest chaining and content-functionality, non-negative durations, and every timestamp parsed as UTC must fall inside the harness's own time.time() bracket of the run and be non-decreasing. Held = no untrue SER field among the records observed.",
+            "Which parameters a node resolves / from which channel comes from the reference model (C01). Digest injectivity is informational only.", "DESIGN.md §4 C07"),
 }
 
 NOT_BUILT_REASON = "check not implemented yet in this round (work in progress; see DESIGN.md §4 for the planned monitor)"
